@@ -97,6 +97,21 @@ class C06(PropCheck):
                                      "origins, coinciding id, one EXT_DATA typed), a plain frame and `dequeue`")
         for ev in itertools.product(alpha2, repeat=d2):
             out.append((line_of([A, C, S, D], list(ev) + ["X", "X", "X"]), "exh-mixed"))
+        # --- exhaustive: ONE sender re-uses its header (same origin, destination and frame id) for a second, different
+        #     message after the first train ended (completely or not): every multiplicity 0..2 of every fragment, the
+        #     first train strictly before the second.  Nothing but the two sent messages may ever be delivered.
+        for na, nb in ((2, 2), (3, 2), (2, 3), (3, 3)):
+            A2 = msg(1, 0, 5, 2, body_of(0xA, na, 5))
+            B2 = msg(1, 0, 5, rng.choice([2, 7]), body_of(0xB, nb, 7))
+            fr4 = frames_of([A2, B2])
+            seqs = fr4[A2] + fr4[B2]
+            for mult in itertools.product((0, 1, 2), repeat=len(seqs)):
+                if tier == "quick" and (na + nb > 5 and rng.random() < 0.7):
+                    continue
+                ev = [f for f, m in zip(seqs, mult) for _ in range(m)]
+                out.append((line_of([A2, B2], ev + ["X", "X", "X"]), "exh-header-reused"))
+        res.exhaustive_blocks.append("one sender, two different messages with the same (origin, destination, id), sent one after "
+                                     "the other: every multiplicity 0..2 of every fragment (2+2, 3+2, 2+3 fragments; 3+3 sampled in quick)")
         # --- random: up to 3 senders, 2..7 fragments, drop/dup/reorder/interleave, strays
         n = 4000 if tier == "quick" else 60000
         specs = [self.random_sent(rng) for _ in range(n)]
